@@ -4,152 +4,12 @@
   evaluators.  Instances proved here: plurality / get_n_best, QuotaSelector (C09 model), highest averages (C01 model).
   Instances for further families live with the property that owns their model and are listed in the evidence.
 -/
-import VotelibProofs.Props.C09
+import VotelibProofs.Lemmas.ShapeDefs
 import VotelibProofs.Props.C01
+import VotelibProofs.Lemmas.ShapeQuota
+import VotelibProofs.Lemmas.ShapeCondorcet
 namespace VL.C08
 open VL
-
-/-- individually elected candidates of a selection result -/
-def electedOf : List Slot → List Cand
-  | [] => []
-  | Slot.cand c :: r => c :: electedOf r
-  | Slot.tie _ :: r => electedOf r
-
-/-- shape of a selection result for `n` seats over the candidates `cands` -/
-structure SelShape (cands : List Cand) (n : Nat) (r : List Slot) : Prop where
-  length   : r.length = n
-  cand_ok  : ∀ c, Slot.cand c ∈ r → c ∈ cands
-  tie_ok   : ∀ T, Slot.tie T ∈ r → ∀ c ∈ T, c ∈ cands
-  nodup    : (electedOf r).Nodup
-  /-- a tie object is repeated once per seat it contests and has more members than those seats -/
-  tie_big  : ∀ T, Slot.tie T ∈ r → r.count (Slot.tie T) < T.length
-  /-- nobody is both elected and listed in a tie -/
-  disjoint : ∀ T, Slot.tie T ∈ r → ∀ c ∈ T, Slot.cand c ∉ r
-
-theorem electedOf_map_cand (l : List Cand) : electedOf (l.map Slot.cand) = l := by
-  induction l with
-  | nil => rfl
-  | cons x xs ih => simp [electedOf, ih]
-
-theorem electedOf_append (a b : List Slot) : electedOf (a ++ b) = electedOf a ++ electedOf b := by
-  induction a with
-  | nil => rfl
-  | cons x xs ih => cases x <;> simp [electedOf, ih]
-
-theorem electedOf_replicate_tie (m : Nat) (T : List Cand) : electedOf (List.replicate m (Slot.tie T)) = [] := by
-  induction m with
-  | zero => rfl
-  | succ k ih => simp [List.replicate_succ, electedOf, ih]
-
-/-- keys of the candidates at or above `t`, in sorted order, are distinct -/
-theorem ge_keys_nodup (votes : Votes) (hwf : C09.WF votes) (t : Rat) :
-    ((aboveSorted votes t).map (·.1) ++ level votes t).Nodup := by
-  have hs : ((sortDesc votes).map (·.1)).Nodup := ((sortDesc_perm votes).map _).nodup_iff.mpr hwf
-  have hsplit := desc_filter_ge_split (sortDesc_desc votes) t
-  have : (aboveSorted votes t).map (·.1) ++ level votes t
-      = ((sortDesc votes).filter (fun p => decide (t ≤ p.2))).map (·.1) := by
-    rw [hsplit, List.map_append]
-    unfold aboveSorted level
-    rw [sortDesc_filter_eq]
-  rw [this]
-  exact List.Nodup.sublist (List.Sublist.map _ List.filter_sublist) hs
-
-/-- **Plurality / get_n_best has the selection shape** whenever at least `n ≥ 1` candidates stand. -/
-theorem getNBest_shape (votes : Votes) (hwf : C09.WF votes) (n : Nat) (h1 : 1 ≤ n) (hlen : n ≤ votes.length) :
-    SelShape (keys votes) n (getNBest votes n) := by
-  have hlength := C09.getNBest_length votes n h1 hlen
-  rcases Nat.lt_or_ge n votes.length with hlt | hge
-  · obtain ⟨t, ht⟩ := nth_exists votes n h1 hlen
-    have hnd := ge_keys_nodup votes hwf t
-    have habove_key : ∀ p ∈ aboveSorted votes t, p.1 ∈ keys votes := fun p hp =>
-      List.mem_map.mpr ⟨p, (C09.mem_aboveSorted.mp hp).1, rfl⟩
-    have hlevel_key : ∀ c ∈ level votes t, c ∈ keys votes := by
-      intro c hc
-      simp only [level, List.mem_map, List.mem_filter] at hc
-      obtain ⟨p, ⟨hp, _⟩, rfl⟩ := hc
-      exact List.mem_map.mpr ⟨p, hp, rfl⟩
-    rcases Nat.lt_or_ge n (cntGe votes t) with hno | hfit
-    · have hres := C09.getNBest_tie votes n h1 hlt t ht hno
-      have hcount : cntGe votes t = cntGt votes t + (level votes t).length := by
-        have hsplit := congrArg List.length (desc_filter_ge_split (sortDesc_desc votes) t)
-        rw [List.length_append] at hsplit
-        have e1 : (List.filter (fun p => decide (t ≤ p.2)) (sortDesc votes)).length = cntGe votes t :=
-          sortDesc_filter_length votes _
-        have e2 : (List.filter (fun p => decide (t < p.2)) (sortDesc votes)).length = cntGt votes t :=
-          sortDesc_filter_length votes _
-        have e3 : (List.filter (fun p => decide (p.2 = t)) (sortDesc votes)).length = (level votes t).length := by
-          rw [sortDesc_filter_eq]; simp [level]
-        omega
-      have hmemcand : ∀ c, Slot.cand c ∈ getNBest votes n ↔ c ∈ (aboveSorted votes t).map (·.1) := by
-        intro c
-        rw [hres]
-        simp only [List.mem_append, List.mem_map, List.mem_replicate]
-        constructor
-        · rintro (⟨p, hp, he⟩ | ⟨_, he⟩)
-          · injection he with he; exact ⟨p, hp, he⟩
-          · cases he
-        · rintro ⟨p, hp, rfl⟩; exact Or.inl ⟨p, hp, rfl⟩
-      have hmemtie : ∀ T, Slot.tie T ∈ getNBest votes n → T = level votes t := by
-        intro T hT
-        rw [hres] at hT
-        rcases List.mem_append.mp hT with h | h
-        · obtain ⟨p, _, he⟩ := List.mem_map.mp h; cases he
-        · have := (List.mem_replicate.mp h).2; injection this
-      refine ⟨hlength, ?_, ?_, ?_, ?_, ?_⟩
-      · intro c hc
-        obtain ⟨p, hp, rfl⟩ := List.mem_map.mp ((hmemcand c).mp hc)
-        exact habove_key p hp
-      · intro T hT c hc; rw [hmemtie T hT] at hc; exact hlevel_key c hc
-      · rw [hres, electedOf_append, electedOf_replicate_tie, List.append_nil]
-        have : (aboveSorted votes t).map (fun p => Slot.cand p.1) = ((aboveSorted votes t).map (·.1)).map Slot.cand := by
-          rw [List.map_map]; rfl
-        rw [this, electedOf_map_cand]
-        exact (List.nodup_append.mp hnd).1
-      · intro T hT
-        have hTe := hmemtie T hT
-        subst hTe
-        rw [hres, List.count_append, List.count_replicate_self]
-        have hz : List.count (Slot.tie (level votes t)) ((aboveSorted votes t).map (fun p => Slot.cand p.1)) = 0 := by
-          rw [List.count_eq_zero]
-          intro hmem
-          obtain ⟨p, _, he⟩ := List.mem_map.mp hmem; cases he
-        rw [hz]
-        have := ht.2.1
-        omega
-      · intro T hT c hc hcand
-        rw [hmemtie T hT] at hc
-        have h1' := (hmemcand c).mp hcand
-        exact (List.nodup_append.mp hnd).2.2 c h1' c hc rfl
-    · have hres := C09.getNBest_fits votes n h1 hlt t ht hfit
-      have hform : getNBest votes n = ((aboveSorted votes t).map (·.1) ++ level votes t).map Slot.cand := by
-        rw [hres, List.map_append, List.map_map]; rfl
-      refine ⟨hlength, ?_, ?_, ?_, ?_, ?_⟩
-      · intro c hc
-        rw [hform] at hc
-        obtain ⟨d, hd, he⟩ := List.mem_map.mp hc
-        injection he with he; subst he
-        rcases List.mem_append.mp hd with h | h
-        · obtain ⟨p, hp, rfl⟩ := List.mem_map.mp h; exact habove_key p hp
-        · exact hlevel_key d h
-      · intro T hT; rw [hform] at hT; obtain ⟨d, _, he⟩ := List.mem_map.mp hT; cases he
-      · rw [hform, electedOf_map_cand]; exact hnd
-      · intro T hT; rw [hform] at hT; obtain ⟨d, _, he⟩ := List.mem_map.mp hT; cases he
-      · intro T hT; rw [hform] at hT; obtain ⟨d, _, he⟩ := List.mem_map.mp hT; cases he
-  · have hres := getNBest_all votes n hge
-    have hform : getNBest votes n = ((sortDesc votes).map (·.1)).map Slot.cand := by
-      rw [hres, List.map_map]; rfl
-    have hs : ((sortDesc votes).map (·.1)).Nodup := ((sortDesc_perm votes).map _).nodup_iff.mpr hwf
-    refine ⟨hlength, ?_, ?_, ?_, ?_, ?_⟩
-    · intro c hc
-      rw [hform] at hc
-      obtain ⟨d, hd, he⟩ := List.mem_map.mp hc
-      injection he with he; subst he
-      obtain ⟨p, hp, rfl⟩ := List.mem_map.mp hd
-      exact List.mem_map.mpr ⟨p, mem_sortDesc.mp hp, rfl⟩
-    · intro T hT; rw [hform] at hT; obtain ⟨d, _, he⟩ := List.mem_map.mp hT; cases he
-    · rw [hform, electedOf_map_cand]; exact hs
-    · intro T hT; rw [hform] at hT; obtain ⟨d, _, he⟩ := List.mem_map.mp hT; cases he
-    · intro T hT; rw [hform] at hT; obtain ⟨d, _, he⟩ := List.mem_map.mp hT; cases he
 
 theorem plurality_shape (votes : Votes) (hwf : C09.WF votes) (n : Nat) (h1 : 1 ≤ n) (hlen : n ≤ votes.length) :
     SelShape (keys votes) n (plurality votes n) := getNBest_shape votes hwf n h1 hlen
@@ -169,12 +29,6 @@ theorem quotaSelector_refusals (quota : Rat → Nat → Rat) (eq : Bool) (om : O
   · left; exact ⟨_, rfl⟩
 
 /-! ### distributions -/
-
-/-- shape of a distribution result: positive awards to parties from the votes (or ties of them) -/
-structure DistShape (cands : List Cand) (r : List (Key × Nat)) : Prop where
-  positive : ∀ k m, (k, m) ∈ r → 0 < m
-  cand_ok  : ∀ c m, (Key.cand c, m) ∈ r → c ∈ cands
-  tie_ok   : ∀ T m, (Key.tie T, m) ∈ r → ∀ c ∈ T, c ∈ cands
 
 theorem haResult_sum (cfg : HACfg) :
     ((haResult cfg).map (·.2)).sum = ((haCands cfg).map (haSeats cfg)).sum + tieSeats (haRun cfg) := by
@@ -216,6 +70,172 @@ theorem ha_shape (cfg : HACfg) (h : CfgOK cfg) :
     rcases ht.2 with h0 | hcap
     · left; rw [haResult_sum]; have := ht.1; omega
     · right; exact hcap
+
+
+/-! ### largest remainder / quota distributor (model VL.QD of C02; `evaluate(votes, n_seats)`: no previous gains, no caps) -/
+
+section quota
+open VL.QD
+
+theorem totalAwarded_nonneg (q : Rat) (ae : Bool) (votes : Votes) : 0 ≤ C02.totalAwarded q ae [] [] votes := by
+  unfold C02.totalAwarded
+  rw [sumK_wholeSel]
+  have : 0 ≤ (votes.map (wholeAward q ae [] [])).sum :=
+    List.sum_nonneg (by intro x hx; obtain ⟨p, _, rfl⟩ := List.mem_map.mp hx; exact wholeAward_nonneg _ _ _ _ _)
+  have h0 : sumI [] = 0 := rfl
+  omega
+
+/-- **QuotaDistributor** (`evaluate(votes, n)`, any over-award policy except the subtract loop): positive awards to
+    parties of the votes, no key twice, and never more than `n` seats unless the caller chose `'ignore'`; the only
+    refusal is the declared `VotingSystemError` of policy `'error'`.  (Reading of DESIGN 12.2: the distributor is
+    documented as not filling the house, so "exactly n" reads "at most n".) -/
+theorem qd_shape (cfg : Cfg) (votes : Votes) (n : Nat) (hwf : C02.WF votes [])
+    (hq : 0 < cfg.quota (sumVals votes) n) (hpol : cfg.onOver ≠ .subtract) :
+    (∀ res, quotaDistribute cfg votes n [] [] = .ok res →
+        DistShapeI (keys votes) res ∧ (sumK res ≤ n ∨ cfg.onOver = .ignore)) ∧
+    (∀ e, quotaDistribute cfg votes n [] [] = .error e → e = .votingSystemError ∧ cfg.onOver = .error) := by
+  have hgood := goodSel_wholeSel (cfg.quota (sumVals votes) n) cfg.acceptEqual [] [] votes
+  have hnd := KNodup_wholeSel (cfg.quota (sumVals votes) n) cfg.acceptEqual [] [] votes hwf.keys_nodup
+  have hshape := distShapeI_of _ _ hgood.1 hgood.2 hnd
+  obtain ⟨h1, h2, h3, _⟩ := C02.qd_policy_honoured cfg votes n [] [] hwf hq
+  rcases lt_or_ge (n : Int) (C02.totalAwarded (cfg.quota (sumVals votes) n) cfg.acceptEqual [] [] votes) with hgt | hle
+  · cases hp : cfg.onOver with
+    | subtract => exact absurd hp hpol
+    | error =>
+      rw [h2 hgt hp]
+      exact ⟨fun res h => (by cases h), fun e h => (by injection h with h; exact ⟨h.symm, rfl⟩)⟩
+    | ignore =>
+      rw [h3 hgt hp]
+      exact ⟨fun res h => (by injection h with h; subst h; exact ⟨hshape, Or.inr rfl⟩), fun e h => (by cases h)⟩
+  · rw [h1 hle]
+    refine ⟨fun res h => ?_, fun e h => by cases h⟩
+    injection h with h; subst h
+    refine ⟨hshape, Or.inl ?_⟩
+    unfold C02.totalAwarded at hle
+    have h0 : sumI [] = 0 := rfl
+    omega
+
+/-- **LargestRemainder** (`evaluate(votes, n)`, `1 ≤ n ≤ #parties`, positive quota, any over-award policy except the
+    subtract loop): positive awards to parties of the votes or ties of them, no key twice, **exactly `n` seats**
+    (unless the caller chose `'ignore'` and the whole quotas alone exceed the house); the only refusal is the declared
+    `VotingSystemError` of policy `'error'`. -/
+theorem lr_shape (cfg : Cfg) (votes : Votes) (n : Nat) (hwf : C02.WF votes [])
+    (hq : 0 < cfg.quota (sumVals votes) n) (hlen : n ≤ votes.length) (hpol : cfg.onOver ≠ .subtract) :
+    (∀ res, largestRemainder cfg votes n [] [] = .ok res →
+        DistShapeI (keys votes) res ∧ (sumK res = n ∨ (cfg.onOver = .ignore ∧ (n : Int) < sumK res))) ∧
+    (∀ e, largestRemainder cfg votes n [] [] = .error e → e = .votingSystemError ∧ cfg.onOver = .error) := by
+  have hgood := goodSel_wholeSel (cfg.quota (sumVals votes) n) cfg.acceptEqual [] [] votes
+  have hnd := KNodup_wholeSel (cfg.quota (sumVals votes) n) cfg.acceptEqual [] [] votes hwf.keys_nodup
+  have h0 : sumI [] = 0 := rfl
+  rcases lt_or_ge (n : Int) (C02.totalAwarded (cfg.quota (sumVals votes) n) cfg.acceptEqual [] [] votes) with hgt | hle
+  · cases hp : cfg.onOver with
+    | subtract => exact absurd hp hpol
+    | error =>
+      rw [C02.lr_policy_error cfg votes n [] [] hwf hq hp hgt]
+      exact ⟨fun res h => (by cases h), fun e h => (by injection h with h; exact ⟨h.symm, rfl⟩)⟩
+    | ignore =>
+      rw [C02.lr_policy_ignore cfg votes n [] [] hwf hq hp hgt]
+      refine ⟨fun res h => ?_, fun e h => by cases h⟩
+      injection h with h; subst h
+      refine ⟨distShapeI_of _ _ hgood.1 hgood.2 hnd, Or.inr ⟨rfl, ?_⟩⟩
+      unfold C02.totalAwarded at hgt
+      omega
+  · have hplain : C02.Plain cfg votes n [] [] := ⟨hwf, hq, hle⟩
+    rw [C02.lr_whole_then_remainders cfg votes n [] [] hplain]
+    refine ⟨fun res h => ?_, fun e h => by cases h⟩
+    have htot := C02.lr_total cfg votes n [] [] hplain (by
+      rw [lrRems_plain hq cfg.acceptEqual votes hwf.votes_nonneg, List.length_map]
+      have := totalAwarded_nonneg (cfg.quota (sumVals votes) n) cfg.acceptEqual votes
+      unfold C02.remSeats
+      omega) res (by rw [C02.lr_whole_then_remainders cfg votes n [] [] hplain]; exact h)
+    injection h with h; subst h
+    refine ⟨?_, Or.inl (by omega)⟩
+    have hkeys : ∀ s ∈ C02.lrBest (cfg.quota (sumVals votes) n) cfg.acceptEqual n [] [] votes,
+        KeyOK (keys votes) (slotKey s) := fun s hs =>
+      (keyOK_slotKey_getNBest _ _ s hs).mono (keys_lrRems_subset _ _ _ _ _)
+    have hg := goodSel_foldl_incK _ hkeys _ hgood
+    exact distShapeI_of _ _ hg.1 hg.2 (KNodup_foldl_incK _ _ hnd)
+
+/-- the five registered quotas that are positive for every positive total (so `lr_shape` / `qd_shape` apply) -/
+theorem quota_pos (V : Rat) (n : Nat) (hV : 0 < V) :
+    0 < Gen.Quota.droop V n ∧ 0 < Gen.Quota.hagenbach_bischoff V n ∧ 0 < Gen.Quota.imperiali V n ∧
+    0 < Gen.Quota.hagenbach_bischoff_ceil V n ∧ (1 ≤ n → 0 < Gen.Quota.hare V n) := by
+  refine ⟨C02.quota_droop_pos V n (le_of_lt hV), ?_, ?_, ?_, ?_⟩
+  · rw [C02.quota_textbook_hagenbach_bischoff]; positivity
+  · rw [C02.quota_textbook_imperiali]; positivity
+  · rw [C02.quota_textbook_hagenbach_bischoff_ceil]
+    have : (0 : Rat) < V / ((n : Rat) + 1) := by positivity
+    exact_mod_cast Int.ceil_pos.mpr this
+  · intro hn
+    rw [C02.quota_textbook_hare]
+    have : (0 : Rat) < n := by exact_mod_cast hn
+    positivity
+
+/-- **open finding** (C08-lr-rounded-quota-zero): the two *rounded* quotas are 0 when the votes are fewer than half
+    the seats (resp. seats+1); `Fraction(v, 0)` then raises `ZeroDivisionError`, which is not a declared refusal.
+    Full statement that fails: `lr_shape` without the hypothesis `0 < quota`. -/
+theorem lr_rounded_quota_zero_witness :
+    largestRemainder ⟨Gen.Quota.hare_rounded, true, .error⟩ [(0, 1), (1, 0), (2, 0)] 3 [] [] = .error zeroDiv ∧
+    largestRemainder ⟨Gen.Quota.hagenbach_bischoff_rounded, true, .error⟩ [(0, 1), (1, 0), (2, 0)] 3 [] [] = .error zeroDiv ∧
+    quotaDistribute ⟨Gen.Quota.hare_rounded, true, .error⟩ [(0, 1), (1, 0), (2, 0)] 3 [] [] = .error zeroDiv := by
+  refine ⟨?_, ?_, ?_⟩ <;> decide +kernel
+
+/-- non-vacuity: Droop with a tie for the last seat; Imperiali over-awarding -/
+example : C02.WF [(0, 5), (1, 3), (2, 3), (3, 1)] [] ∧ 0 < Gen.Quota.droop (sumVals [(0, 5), (1, 3), (2, 3), (3, 1)]) 2 ∧
+    largestRemainder ⟨Gen.Quota.droop, true, .error⟩ [(0, 5), (1, 3), (2, 3), (3, 1)] 2 [] [] =
+      .ok [(.cand 0, 1), (.tie [1, 2], 1)] := by
+  refine ⟨by unfold C02.WF; decide +kernel, by decide +kernel, by decide +kernel⟩
+
+end quota
+
+/-! ### Copeland, Schulze, minimax (models of C05 on a pairwise dictionary `v`; candidates present = the candidates
+    occurring in a pair, DESIGN 12.2).  The three models are total functions: they have no error outcome at all, so
+    the refusal clause holds trivially for them (the correspondence ties this to the code). -/
+
+section condorcet
+open VL.Condorcet
+
+/-- **Copeland** (plain and with second-order tie breaking) -/
+theorem copeland_shape (secondOrder : Bool) (v : Pairwise) (n : Nat) (h1 : 1 ≤ n) (hlen : n ≤ (candidates v).length) :
+    SelShape (candidates v) n (copeland secondOrder v n) := by
+  unfold copeland
+  simp only
+  have hkeys : keys (seededScores v (copelandScoresRaw (pairwiseWins v false))) = candidates v := keys_seededScores _ _
+  have hnd := nodup_candidates v
+  have hbase := getNBest_shape_of_keys _ _ hkeys hnd n h1 hlen
+  split
+  · rename_i hcond
+    obtain ⟨A, L, k, hform, hnodup, hmem, hk, hsum⟩ := getNBest_struct
+      (seededScores v (copelandScoresRaw (pairwiseWins v false))) (by unfold C09.WF; rw [hkeys]; exact hnd) n h1
+      (by rw [length_seededScores]; exact hlen)
+    rw [hform] at hcond ⊢
+    rw [any_isTie] at hcond
+    have hk0 : 0 < k := by simp at hcond; exact hcond.2
+    rcases hk with hk | hk
+    · omega
+    · rw [← hsum]
+      exact breakSecondOrder_shape (candidates v) A L k _ _ hnodup (fun c hc => by rw [← hkeys]; exact hmem c hc) hk0 hk
+  · exact hbase
+
+/-- **Schulze** -/
+theorem schulze_shape (v : Pairwise) (n : Nat) (h1 : 1 ≤ n) (hlen : n ≤ (candidates v).length) :
+    SelShape (candidates v) n (schulze v n) := by
+  unfold schulze
+  exact getNBest_shape_of_keys _ _ (keys_schulzeScores v) (nodup_candidates v) n h1 hlen
+
+/-- **minimax** (winning votes, margins, pairwise opposition) -/
+theorem minimax_shape (sc : Scorer) (v : Pairwise) (n : Nat) (h1 : 1 ≤ n) (hlen : n ≤ (candidates v).length) :
+    SelShape (candidates v) n (minimax sc v n) := by
+  rw [minimax_eq]
+  refine getNBest_shape_of_keys _ _ ?_ (nodup_candidates v) n h1 hlen
+  have := okeys_minimaxTable sc v
+  simpa [keys, okeys, List.map_map, Function.comp_def] using this
+
+/-- non-vacuity: a three-way Copeland tie for two seats is broken by second-order scores or reported -/
+example : copeland true [((0, 1), 1), ((1, 0), 1), ((0, 2), 1), ((2, 0), 1), ((1, 2), 1), ((2, 1), 1)] 2 =
+    [Slot.tie [0, 1, 2], Slot.tie [0, 1, 2]] := by decide +kernel
+
+end condorcet
 
 /-- non-vacuity -/
 example : SelShape (keys [(1,5),(2,3),(3,3),(4,1)]) 2 (getNBest [(1,5),(2,3),(3,3),(4,1)] 2) :=
